@@ -328,15 +328,82 @@ func phiEdge(p *ssa.BasicBlock, si int, in map[*ssa.BasicBlock]Facts, eg EdgeGen
 	if must {
 		acc = top
 	}
-	for k, q := range p.Preds {
-		// facts on the edge q -> p (p may appear more than once among q's successors)
+	// contributions: for predecessor index k of block b, the (facts on the edge, phi substitution,
+	// origin block) alternatives. A predecessor that only merges values (phis, then an unconditional
+	// jump) and whose phis feed b's phis is expanded into its own predecessors, so that nested merges
+	// (a helper inlined inside a helper) are separated as well.
+	type contrib struct {
+		fin  Facts
+		sub  map[*ssa.Phi]ssa.Value
+		from *ssa.BasicBlock
+	}
+	var contributions func(b *ssa.BasicBlock, k int, depth int) []contrib
+	contributions = func(b *ssa.BasicBlock, k int, depth int) []contrib {
+		q := b.Preds[k]
+		sub := map[*ssa.Phi]ssa.Value{}
+		for _, in2 := range b.Instrs {
+			ph, ok := in2.(*ssa.Phi)
+			if !ok {
+				break
+			}
+			if k < len(ph.Edges) {
+				sub[ph] = ph.Edges[k]
+			}
+		}
+		// is q a pure merge block feeding b?
+		pure := depth < 3 && len(q.Preds) >= 2 && len(q.Succs) == 1
+		feeds := false
+		if pure {
+			for _, in2 := range q.Instrs {
+				switch x := in2.(type) {
+				case *ssa.Phi:
+					for _, v := range sub {
+						if v == ssa.Value(x) {
+							feeds = true
+						}
+					}
+				case *ssa.Jump:
+				default:
+					pure = false
+				}
+			}
+		}
+		if pure && feeds {
+			var out []contrib
+			for k2 := range q.Preds {
+				for _, c := range contributions(q, k2, depth+1) {
+					// compose: values of b's phis that are q's phis take q's incoming value
+					ns := map[*ssa.Phi]ssa.Value{}
+					for ph, v := range sub {
+						if vp, ok := v.(*ssa.Phi); ok {
+							if r, ok := c.sub[vp]; ok {
+								ns[ph] = r
+								continue
+							}
+						}
+						ns[ph] = v
+					}
+					for ph, v := range c.sub {
+						if _, dup := ns[ph]; !dup {
+							ns[ph] = v
+						}
+					}
+					fin := c.fin
+					if eg != nil {
+						fin |= eg(q, 0)
+					}
+					out = append(out, contrib{fin, ns, c.from})
+				}
+			}
+			return out
+		}
 		var fin Facts
 		if must {
 			fin = top
 		}
 		oq := transfer(q, in[q])
 		for sj, s := range q.Succs {
-			if s != p {
+			if s != b {
 				continue
 			}
 			e := oq
@@ -349,40 +416,35 @@ func phiEdge(p *ssa.BasicBlock, si int, in map[*ssa.BasicBlock]Facts, eg EdgeGen
 				fin |= e
 			}
 		}
-		if must && in[q] == top && q != p.Parent().Blocks[0] {
-			// q not reached (yet): contributes the top element
-			fin = top
+		if must && in[q] == top && q != b.Parent().Blocks[0] {
+			fin = top // q not reached (yet): contributes the top element
 		}
-		sub := map[*ssa.Phi]ssa.Value{}
-		for _, in2 := range p.Instrs {
-			ph, ok := in2.(*ssa.Phi)
-			if !ok {
-				break
+		return []contrib{{fin, sub, q}}
+	}
+	for k := range p.Preds {
+		for _, cb := range contributions(p, k, 0) {
+			fin, q := cb.fin, cb.from
+			phiSubst = cb.sub
+			phiPred = q
+			val, known := decideCond(iff.Cond, 0)
+			feasible := !known || (val == (si == 0))
+			var e Facts
+			if feasible {
+				e = transfer(p, fin)
+				if eg != nil {
+					e |= eg(p, si)
+				}
 			}
-			if k < len(ph.Edges) {
-				sub[ph] = ph.Edges[k]
+			phiSubst = nil
+			phiPred = nil
+			if !feasible {
+				continue
 			}
-		}
-		phiSubst = sub
-		phiPred = q
-		val, known := decideCond(iff.Cond, 0)
-		feasible := !known || (val == (si == 0))
-		var e Facts
-		if feasible {
-			e = transfer(p, fin)
-			if eg != nil {
-				e |= eg(p, si)
+			if must {
+				acc &= e
+			} else {
+				acc |= e
 			}
-		}
-		phiSubst = nil
-		phiPred = nil
-		if !feasible {
-			continue
-		}
-		if must {
-			acc &= e
-		} else {
-			acc |= e
 		}
 	}
 	return acc, true
